@@ -157,12 +157,11 @@ Definition expire_queue (now : Z) (k : nat) (m : cmodel) : cmodel := expire_loop
 Definition expire_all (now : Z) (m : cmodel) : cmodel :=
   fold_left (fun m k => expire_queue now k m) (seq 0 (length (m_queues m))) m.
 
-(* ExecutionStrategy.__eq__ / __lt__ (workload/strategy.py) *)
+(* ExecutionStrategy.__eq__ / __lt__ (workload/strategy.py): generated from the source, over the Resources comparisons *)
 Definition strat_eq (a b : strategy) : bool :=
-  (s_bs a =? s_bs b) && (s_rt a =? s_rt b) && res_eq (s_res a) (s_res b).
+  cw_strategy_eq res_eq (s_bs a) (s_rt a) (s_res a) (s_bs b) (s_rt b) (s_res b).
 Definition strat_lt (a b : strategy) : bool :=
-  if s_rt a =? s_rt b then (if s_bs a =? s_bs b then res_lt (s_res a) (s_res b) else s_bs a <? s_bs b)
-  else s_rt a <? s_rt b.
+  cw_strategy_lt res_lt (s_bs a) (s_rt a) (s_res a) (s_bs b) (s_rt b) (s_res b).
 (* tuple comparison of (priority, -batch_size, strategy) *)
 Definition skey := (Z * Z * strategy)%type.
 Definition skey_lt (x y : skey) : bool :=
